@@ -570,8 +570,13 @@ func inTimeSub(s *State, fr *Frame, fn *ssa.Function, a []Value, d ssa.Value) (V
 		s.pushFrame(fn, a, nil, d)
 		return nil, true
 	}
+	// seconds are base + an offset below 2^15 (offsets up to 200 s plus TTLs up to an hour): take the
+	// difference on 16 bits, which keeps the multiplication by 1e9 narrow for the solver
+	base := Const(64, clockBase)
+	ot := Extract(Sub(ts, base), 15, 0)
+	ou := Extract(Sub(us, base), 15, 0)
+	ds := Mul(SExt(Sub(ot, ou), 64), Const(64, 1000000000))
 	mask30 := Const(64, (1<<30)-1)
-	ds := Mul(Sub(ts, us), Const(64, 1000000000))
 	dn := Sub(BAnd(tn, mask30), BAnd(un, mask30))
 	return Add(ds, dn), false
 }
